@@ -189,7 +189,6 @@ def _equilibrium():
 # ---------------------------------------------------------------------------------------------------------------
 class Ctx:
     def __init__(self, case):
-        np, R = _G["np"], _G["R"]
         self.case = case
         self.fam, self.Z, self.dl, self.group = case["family"], case["Z"], case["donor"], case["group"]
         self.dcls, self.dz, self.dq, self.dbase = DONORS[self.dl]
@@ -376,7 +375,6 @@ def check_density(ctx, entry, dens, nel, p):
 
 
 def neutral_expect(ctx, p, qs, x=None, zmean=None):
-    np = _G["np"]
     x = p["x"] if x is None else x
     zmean = p["zmean"] if zmean is None else zmean
     rem = max(p["ne"] - qs, 0.0)
@@ -386,7 +384,7 @@ def neutral_expect(ctx, p, qs, x=None, zmean=None):
 
 def check_neutral(ctx, entry, dens, qs, p, scls):
     """match_plasma_neutrality: dens >= 0, charge + given species charge == n_e, dens == x * (n_e - qs)/<z>"""
-    np, R = _G["np"], _G["R"]
+    np = _G["np"]
     d = "donor=" + ctx.dcls
     Z, ne = ctx.Z, p["ne"]
     at = ctx.ptdesc(p) + " species=" + scls
@@ -587,7 +585,7 @@ def _col(arr, idx, shape):
 
 def scalar_baseline(ctx, entry, ks, nel_mult=None, sp=None, container="dict"):
     """scalar calls of a core entry point at lattice indices ks -> {k: ndarray(Z+1) or None}"""
-    np, ib = _G["np"], _G["ib"]
+    ib = _G["ib"]
     out = {}
     for k in ks:
         p = ctx.pts[k]
@@ -767,11 +765,11 @@ def group_repr(ctx, entry):
                 col = _col(prof, idx, shape)
                 ctx.check += float(_zm(col)) / max(p["ne"] if entry != "fractional_abundance" else 1.0, 1.0)
                 if entry == "fractional_abundance":
-                    good = check_fractions(ctx, entry, col, p)
+                    check_fractions(ctx, entry, col, p)
                 elif entry == "from_elementdensity":
-                    good = check_density(ctx, entry, col, extra[k], p)
+                    check_density(ctx, entry, col, extra[k], p)
                 else:
-                    good = check_neutral(ctx, entry, col, qs[k], p, scls)
+                    check_neutral(ctx, entry, col, qs[k], p, scls)
                 if base[k] is not None:
                     agree(ctx, "%s:repr=%s:differs-from-scalar-call" % (entry, rep),
                           "representation gives another result than the scalar call at " + ctx.ptdesc(p), col, base[k])
